@@ -59,7 +59,8 @@ MCUFilesU == {"u"}
 MCEmitCli == {"goto", "refs", "unused", "rff"}
 MCLevelsChain == [l \in 0..2 |-> {"absent", "def", "override"}]
 MCSameChain == {"none", "def", "override"}
-MCExtraChain == {{}, {"pl"}, {"tp"}, {"pl", "tp"}, {"plo"}, {"plo", "tp"}}
+\* {"cs"}: a conftest in a SIBLING directory (its name a string prefix of the chain directory's) defines the name too
+MCExtraChain == {{}, {"pl"}, {"tp"}, {"pl", "tp"}, {"plo"}, {"plo", "tp"}, {"cs"}, {"cs", "tp"}}
 MCLevelsSmall == [l \in 0..2 |-> CASE l = 0 -> {"absent", "def", "star"}
                                    [] l = 1 -> {"absent", "def", "override", "imp"}
                                    \* star / imp at the innermost level: with the conftest itself as the using file the
